@@ -89,85 +89,89 @@ def run(ctx):
         ctx.broken.append("lock-discipline model with the code's deviation switched on found no race: model is wrong")
 
     _t(ctx, "R1 model checking")
-    exe = ctx.go_build("vh-headerspool")
-    # ---- R2a: one behaviour per transition of the abstract state graph
-    open(os.path.join(sd, "gen.cfg"), "w").write(CFG % dict(
-        base, spec="GenSpec", log="LogAppend", depth=10, maxper="2, 3" if q else "1, 2, 3",
-        pairs="PairsQuick" if q else "PairsAll",
-        shards="0, 2" if q else "0, 1, 2", hashes="1, 2, 3",
-        rest="VIEW cvars\nACTION_CONSTRAINT EmitEdge"))
-    beh = ctx.path("edges.ndjson")
-    g = ctx.tlc(sd, "MC_HeadersPool", "gen.cfg", timeout=1500, behaviours_out=beh)
-    sus = ctx.path("suspects.ndjson")
-    r = ctx.vh(exe, ["replay", beh, sus], timeout=1500)
-    ctx.cov(traces_validated_against_impl=int(r.stats.get("behaviours", 0)), evaluations=int(r.stats.get("steps", 0)),
-            distinct_nontrivial=int(r.stats.get("distinct_transitions", 0)))
-    if g.ok and g.behaviours == 0:
-        ctx.broken.append("behaviour export produced nothing")
-    judge_suspects(ctx, sd, sus, int(r.stats.get("suspect_events", 0)))
-    _t(ctx, "R2a transition cover + replay")
-    # ---- R2b: long random behaviours of the specification (4 hashes, 3 shards, 3 nonces)
-    open(os.path.join(sd, "sim.cfg"), "w").write(CFG % dict(
-        base, spec="GenSpec", log="LogAppend", depth=40, hashes="1, 2, 3, 4", shards="0, 1, 2", nonces="1, 2, 3",
-        maxper="1, 2, 3, 4", numrem="1, 2, 3", rest="ACTION_CONSTRAINT EmitFull"))
-    beh2 = ctx.path("sim.ndjson")
-    ctx.tlc(sd, "MC_HeadersPool", "sim.cfg", simulate=30 if q else 400, depth=40, timeout=900, behaviours_out=beh2)
-    sus2 = ctx.path("suspects2.ndjson")
-    r2 = ctx.vh(exe, ["replay", beh2, sus2], timeout=1500)
-    ctx.cov(traces_validated_against_impl=int(r2.stats.get("behaviours", 0)), evaluations=int(r2.stats.get("steps", 0)))
-    judge_suspects(ctx, sd, sus2, int(r2.stats.get("suspect_events", 0)))
-    _t(ctx, "R2b simulation + replay")
-    # ---- R3: random histories on the real pool (up to 15 hashes, limits up to 7) validated by TLC
-    tr = os.path.join(sd, "trace.ndjson")
-    nt, ln = (30, 100) if q else (300, 250)
-    r3 = ctx.vh(exe, ["record", ctx.seed, nt, ln, tr])
-    ne = int(r3.stats.get("events", 0))
-    st, line = vlib.validate_trace(ctx, sd, "Trace_HeadersPool", "Trace_HeadersPool.cfg", tr, ne, "C29/trace",
-                                   divergence_is_violation=False, what="headersPool trace",
-                                   obs_cfg="Trace_HeadersPool_obs.cfg", timeout=1200)
-    if st == "accepted":
-        ctx.cov(traces_validated_against_impl=nt, evaluations=ne)
-    if not q and st == "accepted":
-        def stale_hash_entry(evs):     # a removal that forgets the by-hash index
-            for e in evs:
-                if e["a"] == "RemoveHeaderByNonce" and e["st"]["byHash"]:
-                    pass
-            for i, e in enumerate(evs):
-                if e["a"] in ("RemoveHeaderByNonce", "RemoveHeaderByHash") and i > 0 and \
-                        len(evs[i - 1]["st"]["byHash"]) > len(e["st"]["byHash"]) and evs[i - 1]["a"] != "New":
-                    e["st"]["byHash"] = evs[i - 1]["st"]["byHash"]
-                    break
-            return evs
+    only = os.environ.get("VERIF_ONLY", "")   # development aid: "seq" or "race" runs one half only
+    if only != "race":
+        exe = ctx.go_build("vh-headerspool")
+        # ---- R2a: one behaviour per transition of the abstract state graph
+        open(os.path.join(sd, "gen.cfg"), "w").write(CFG % dict(
+            base, spec="GenSpec", log="LogAppend", depth=10, maxper="2, 3" if q else "1, 2, 3",
+            pairs="PairsQuick" if q else "PairsAll",
+            shards="0, 2" if q else "0, 1, 2", hashes="1, 2, 3",
+            rest="VIEW cvars\nACTION_CONSTRAINT EmitEdge"))
+        beh = ctx.path("edges.ndjson")
+        g = ctx.tlc(sd, "MC_HeadersPool", "gen.cfg", timeout=1500, behaviours_out=beh)
+        sus = ctx.path("suspects.ndjson")
+        r = ctx.vh(exe, ["replay", beh, sus], timeout=1500)
+        ctx.cov(traces_validated_against_impl=int(r.stats.get("behaviours", 0)), evaluations=int(r.stats.get("steps", 0)),
+                distinct_nontrivial=int(r.stats.get("distinct_transitions", 0)))
+        if g.ok and g.behaviours == 0:
+            ctx.broken.append("behaviour export produced nothing")
+        judge_suspects(ctx, sd, sus, int(r.stats.get("suspect_events", 0)))
+        _t(ctx, "R2a transition cover + replay")
+        # ---- R2b: long random behaviours of the specification (4 hashes, 3 shards, 3 nonces)
+        open(os.path.join(sd, "sim.cfg"), "w").write(CFG % dict(
+            base, spec="GenSpec", log="LogAppend", depth=40, hashes="1, 2, 3, 4", shards="0, 1, 2", nonces="1, 2, 3",
+            maxper="1, 2, 3, 4", numrem="1, 2, 3", rest="ACTION_CONSTRAINT EmitFull"))
+        beh2 = ctx.path("sim.ndjson")
+        ctx.tlc(sd, "MC_HeadersPool", "sim.cfg", simulate=30 if q else 400, depth=40, timeout=900, behaviours_out=beh2)
+        sus2 = ctx.path("suspects2.ndjson")
+        r2 = ctx.vh(exe, ["replay", beh2, sus2], timeout=1500)
+        ctx.cov(traces_validated_against_impl=int(r2.stats.get("behaviours", 0)), evaluations=int(r2.stats.get("steps", 0)))
+        judge_suspects(ctx, sd, sus2, int(r2.stats.get("suspect_events", 0)))
+        _t(ctx, "R2b simulation + replay")
+        # ---- R3: random histories on the real pool (up to 15 hashes, limits up to 7) validated by TLC
+        tr = os.path.join(sd, "trace.ndjson")
+        nt, ln = (30, 100) if q else (300, 250)
+        r3 = ctx.vh(exe, ["record", ctx.seed, nt, ln, tr])
+        ne = int(r3.stats.get("events", 0))
+        st, line = vlib.validate_trace(ctx, sd, "Trace_HeadersPool", "Trace_HeadersPool.cfg", tr, ne, "C29/trace",
+                                       divergence_is_violation=False, what="headersPool trace",
+                                       obs_cfg="Trace_HeadersPool_obs.cfg", timeout=1200)
+        if st == "accepted":
+            ctx.cov(traces_validated_against_impl=nt, evaluations=ne)
+        if not q and st == "accepted":
+            def stale_hash_entry(evs):     # a removal that forgets the by-hash index
+                for e in evs:
+                    if e["a"] == "RemoveHeaderByNonce" and e["st"]["byHash"]:
+                        pass
+                for i, e in enumerate(evs):
+                    if e["a"] in ("RemoveHeaderByNonce", "RemoveHeaderByHash") and i > 0 and \
+                            len(evs[i - 1]["st"]["byHash"]) > len(e["st"]["byHash"]) and evs[i - 1]["a"] != "New":
+                        e["st"]["byHash"] = evs[i - 1]["st"]["byHash"]
+                        break
+                return evs
 
-        def wrong_count(evs):
-            for e in evs:
-                if e["st"].get("cnt"):
-                    e["st"]["cnt"][0]["c"] += 1
-                    break
-            return evs
-        for mut in (stale_hash_entry, wrong_count):
-            vlib.selftest_rejects(ctx, sd, "Trace_HeadersPool", "Trace_HeadersPool.cfg", tr, mut)
-            vlib.selftest_rejects(ctx, sd, "Trace_HeadersPool", "Trace_HeadersPool_obs.cfg", tr, mut)
-    _t(ctx, "R3 record + trace validation")
-    # ---- race half
-    rexe = ctx.go_build("vh-headerspool", race=True)
-    scen = ctx.path("scenarios.ndjson")
-    with open(scen, "w") as out:
-        for th in (["1, 2"] if q else ["1, 2", "1, 2, 3"]):
-            open(os.path.join(sd, "scen.cfg"), "w").write(LOCKS % dict(
-                spec="GenSpec", threads=th, defects=AS_IS, rest="ACTION_CONSTRAINT EmitEdge"))
-            part = ctx.path("scen-part.ndjson")
-            gs = ctx.tlc(sd, "MC_HeadersPoolLocks", "scen.cfg", timeout=600, behaviours_out=part, count=False)
-            if gs.ok and gs.behaviours == 0:
-                ctx.broken.append("scenario export produced nothing")
-            out.write(open(part).read())
-    rr = ctx.vh(rexe, ["race", scen, 120 if q else 300], timeout=3000)
-    ctx.cov(traces_validated_against_impl=int(rr.stats.get("scenarios", 0)),
-            evaluations=int(rr.stats.get("goroutine_iterations", 0)),
-            distinct_nontrivial=int(rr.stats.get("distinct_scenarios", 0)),
-            race_scenarios=int(rr.stats.get("scenarios", 0)), race_observed=int(rr.stats.get("race_observed", 0)),
-            race_predicted_by_model=int(rr.stats.get("race_predicted", 0)))
-    _t(ctx, "race scenarios")
+            def wrong_count(evs):
+                for e in evs:
+                    if e["st"].get("cnt"):
+                        e["st"]["cnt"][0]["c"] += 1
+                        break
+                return evs
+            for mut in (stale_hash_entry, wrong_count):
+                vlib.selftest_rejects(ctx, sd, "Trace_HeadersPool", "Trace_HeadersPool.cfg", tr, mut)
+                vlib.selftest_rejects(ctx, sd, "Trace_HeadersPool", "Trace_HeadersPool_obs.cfg", tr, mut)
+        _t(ctx, "R3 record + trace validation")
+    if only != "seq":
+        # ---- race half
+        rexe = ctx.go_build("vh-headerspool", race=True)
+        scen = ctx.path("scenarios.ndjson")
+        with open(scen, "w") as out:
+            for th in (["1, 2"] if q else ["1, 2", "1, 2, 3"]):
+                open(os.path.join(sd, "scen.cfg"), "w").write(LOCKS % dict(
+                    spec="GenSpec", threads=th, defects=AS_IS, rest="ACTION_CONSTRAINT EmitEdge"))
+                part = ctx.path("scen-part.ndjson")
+                gs = ctx.tlc(sd, "MC_HeadersPoolLocks", "scen.cfg", timeout=600, behaviours_out=part, count=False)
+                if gs.ok and gs.behaviours == 0:
+                    ctx.broken.append("scenario export produced nothing")
+                out.write(open(part).read())
+        rr = ctx.vh(rexe, ["race", scen, 120 if q else 300], timeout=3000)
+        ctx.cov(traces_validated_against_impl=int(rr.stats.get("scenarios", 0)),
+                evaluations=int(rr.stats.get("goroutine_iterations", 0)),
+                distinct_nontrivial=int(rr.stats.get("distinct_scenarios", 0)),
+                race_scenarios=int(rr.stats.get("scenarios", 0)), race_observed=int(rr.stats.get("race_observed", 0)),
+                race_predicted_by_model=int(rr.stats.get("race_predicted", 0)),
+                race_predicted_not_observed=int(rr.stats.get("race_predicted_not_observed", 0)))
+        _t(ctx, "race scenarios")
     ctx.cov(rule="sequential half: every transition of the HeadersPool specification's state graph (3 hashes incl. the empty "
                  "hash, 2-3 shards incl. metachain, 2 nonces, all limit pairs) replayed on the real pool comparing the answer "
                  "and the three indexes + recency order after each call; distinct = distinct (configuration, source state, "
